@@ -120,6 +120,12 @@ def gen_case(rng, main):
     per = {g.tag: len(g.pulses) for g in m0.geo}
     # sources
     ns = min(npulse, rng.choice([1, 1, 2, 3]))
+    if npulse >= 5 and rng.random() < 0.12:
+        # the default source (no --excitation-pulse: pulse 5), with or without a voltage
+        ns = 0
+        if rng.random() < 0.6:
+            v = rng.choice([1, complex(_d(rng, -5, 5, 3), _d(rng, -5, 5, 3)), complex(_d(rng, 0.1, 9, 3), 0)])
+            opts.append('--excitation-voltage=%s' % (('%g%+gj' % (v.real, v.imag)) if isinstance(v, complex) else str(v)))
     for p in rng.sample(range(npulse), ns):
         if rng.random() < 0.4:
             g = m0.pulses[p].geobj
@@ -248,6 +254,79 @@ def _observe_attach(m1, m2, by_geo):
                           reread=[p.idx for p in lumped2[k].pulses] if k < len(lumped2) else None))
     return dict(tags=tags, counts=counts, layout_ok=layout_ok, by_geo=by_geo, loads=loads)
 
+KINDS = {'Impedance_Load': 0, 'Series_RLC_Load': 1, 'Trap_Load': 2, 'Laplace_Load': 3}
+DEFOPT = ('--load=', '--rlc-load=', '--trap-load=', '--laplace-load-a=', '--laplace-load-b=')
+
+def _observe_loads(m1, t1, m2, by_geo):
+    """lumped loads: the model's loads in registration order (kind, attachment ids), the load section of the written
+    text as rows [0, kind, load] / [1, number - 1, attachment id], the order of the re-read model's loads"""
+    lumped1 = [l for l in m1.loads if type(l).__name__ in KINDS]
+    if not lumped1:
+        return None
+    info = []; nid = 0
+    for l in lumped1:
+        lines = l.as_cmdline(m1, by_geo).split()
+        d = [x for x in lines if x.startswith(DEFOPT)]
+        a = [x.split('=')[1].split(',', 1)[1] for x in lines if x.startswith('--attach-load=')]
+        ids = list(range(nid, nid + len(a))); nid += len(a)
+        info.append(dict(kind=KINDS[type(l).__name__], defs=d, atts=a, ids=ids, pulses=sorted(p.idx for p in l.pulses)))
+    given = [[x['kind'], x['ids']] for x in info]
+    # the load section of the written text, block by block
+    rows = []; used = set(); lines = t1.split(); i = 0
+    while i < len(lines):
+        if not lines[i].startswith(DEFOPT):
+            i += 1; continue
+        d = []
+        while i < len(lines) and lines[i].startswith(DEFOPT):
+            d.append(lines[i]); i += 1
+        a = []
+        while i < len(lines) and lines[i].startswith('--attach-load='):
+            f = lines[i].split('=')[1].split(',', 1); a.append((int(f[0]), f[1])); i += 1
+        cand = [k for k, x in enumerate(info) if k not in used and x['defs'] == d and x['atts'] == [y[1] for y in a]]
+        if not cand:
+            return dict(given=given, unparsed='load block %r %r of the written text matches no load of the model' % (d, a))
+        k = cand[0]; used.add(k)
+        rows.append([0, info[k]['kind'], k])
+        for (n, _), aid in zip(a, info[k]['ids']):
+            rows.append([1, n - 1, aid])
+    reread = None
+    if m2 is not None:
+        reread = []; used2 = set()
+        for l in [l for l in m2.loads if type(l).__name__ in KINDS]:
+            d = [x for x in l.as_cmdline(m2, by_geo).split() if x.startswith(DEFOPT)]
+            ps = sorted(p.idx for p in l.pulses)
+            cand = [k for k, x in enumerate(info) if k not in used2 and x['defs'] == d and x['pulses'] == ps]
+            if not cand:
+                reread = None; break
+            used2.add(cand[0]); reread.append(cand[0])
+    return dict(given=given, written=rows, reread=reread)
+
+def _observe_sources(m1, t1, m2):
+    """sources: (voltage id, address, default flag) of the model in order, the source options of the written text as
+    rows [0, voltage id] / [1, pulse - 1] / [1, pulse - 1, tag], the sources of the re-read model"""
+    vt = lambda v: '%g%+gj' % (v.real, v.imag)
+    table = {}
+    def vid(v):
+        if v == 1 + 0j: return 1
+        return table.setdefault(vt(v), 2 + len(table))
+    def addr(s):
+        if s.geo_tag is not None and s.geo_idx is not None: return [int(s.geo_idx), int(s.geo_tag)]
+        return [int(s.idx)]
+    given = [[vid(complex(s.voltage)), addr(s), bool(s.is_default)] for s in m1.sources]
+    rows = []
+    for x in t1.split():
+        if x.startswith('--excitation-voltage='):
+            t = x.split('=', 1)[1]
+            v = complex(t)
+            rows.append([0, 1 if (v == 1 + 0j and t in ('1+0j', '1')) else table.get(t, -5)])
+        elif x.startswith('--excitation-pulse='):
+            f = [int(y) for y in x.split('=', 1)[1].split(',')]
+            rows.append([1, f[0] - 1] + f[1:])
+    reread = None
+    if m2 is not None:
+        reread = [[(1 if complex(s.voltage) == 1 + 0j else table.get(vt(complex(s.voltage)), -5)), 1 if s.is_default else 0] + addr(s) for s in m2.sources]
+    return dict(given=given, written=rows, reread=reread)
+
 def _obj_lines(argv):
     """object options of an argument list in order: (kind, tag or None, fields after the tag)"""
     out = []; i = 0
@@ -338,6 +417,9 @@ def c15(payload):
             if not isinstance(m2, int):
                 r['obs'] = _observe_attach(m1, m2, by_geo)
                 r['objs'] = _observe_objects(argv, m1, t1)
+            m2x = None if isinstance(m2, int) else m2
+            r['lds'] = _observe_loads(m1, t1, m2x, by_geo)
+            r['srcs'] = _observe_sources(m1, t1, m2x)
             r['features'] = dict(nobj=len(m1.geo), nloads=len(m1.loads), media=len(m1.media or []), by_geo=by_geo)
         except Exception as e:
             r['error'] = exc_info(e)
